@@ -17,6 +17,7 @@ void __vf_mutex_lock(void* m) { (void)m; }
 void __vf_mutex_unlock(void* m) { (void)m; }
 void __vf_register_alloc(const void* p) { (void)p; }
 void __vf_access(const void* p, int w) { (void)p; (void)w; }
+void __vf_lib_write(const void* p) { (void)p; }
 uint64_t nondet_u64(void) { return 0; }
 uint8_t  nondet_u8(void) { return 0; }
 int64_t  nondet_i64(void) { return 0; }
